@@ -216,7 +216,7 @@ def values_equal(a, b, rtol=0.0, atol=0.0):
     return abs(a - b) <= atol + rtol * max(abs(a), abs(b))
 
 
-def compare_labelled(orig, back, rtol=0.0, atol=0.0, check_name=False, check_dim_order=True):
+def compare_labelled(orig, back, rtol=0.0, atol=0.0, check_name=False, check_dim_order=False):
     """None if `back` carries the same structure and the same value at every label as `orig`, else a short reason."""
     if isinstance(orig, (list, tuple)):
         if not isinstance(back, (list, tuple)):
